@@ -81,6 +81,19 @@ def run(ctx: core.Ctx):
 
     rng = ctx.rng
     lines, refs = [], []
+    # corpus first: selection-sensitive series (two nearly equal lowest V-curve values)
+    import json
+    corpus = json.loads((core.ROOT / "corpus" / "selection_sensitive.json").read_text())
+    for variant in ("optv", "optvp"):
+        for c in corpus[variant]:
+            nd = -3000.0
+            arr = smooth.encode(c["y"], [bool(b) for b in c["mask"]], nd)
+            prm = dict(sr=c["sr"]) if variant == "optv" else dict(sr=c["sr"], p=c["p"])
+            band, lopt = smooth.call(variant, arr, nd, prm)
+            lines.append(smooth.line(variant, arr, nd, prm))
+            refs.append((variant, arr, nd, prm, band, lopt, [bool(b) for b in c["mask"]]))
+            ctx.case(("corpus", variant, tuple(c["y"])), sample=None)
+            ctx.count("corpus/" + variant)
     for variant in ("optv", "optvp", "optvplc"):
         for k in range(ctx.budget(40, 400)):
             n = rng.choice([5, 6, 8, 10, 16, 24, 36, 36] + ([] if ctx.quick else [72, 144, 200]))
